@@ -1,3 +1,158 @@
-use crate::run::{Ctx, Ev};
+//! C17 - quoted amounts equal executed amounts; slippage limits are honoured.
+use serde_json::json;
+
+use super::engine_refs::*;
+use crate::refmodel::*;
+use crate::run::{pq_u, Ctx, Ev};
+use crate::types::*;
 use crate::world::World;
-pub fn step(_ctx: &Ctx, _w: &World, _ev: &mut Ev) {}
+
+/// true when the quoted counter-amount is on the wrong side of a non-zero limit
+fn wrong_side(receiving: bool, quoted: U, limit: U) -> bool {
+    if limit == 0 {
+        return false;
+    }
+    if receiving {
+        quoted < limit
+    } else {
+        quoted > limit
+    }
+}
+
+fn rel(quoted: U, limit: U) -> &'static str {
+    if limit == 0 {
+        "none"
+    } else if limit == quoted {
+        "at"
+    } else if limit + 1 == quoted {
+        "quote_minus_1"
+    } else if limit == quoted + 1 {
+        "quote_plus_1"
+    } else if limit < quoted {
+        "below"
+    } else {
+        "above"
+    }
+}
+
+pub fn step(ctx: &Ctx, w: &World, ev: &mut Ev) {
+    match &ctx.step.op {
+        Op::SwapInput { vamm, dir, quote, limit, .. } | Op::SwapOutput { vamm, dir, base: quote, limit } if w.cfg.kind == WorldKind::VammDirect => {
+            let v = *vamm;
+            let input = matches!(ctx.step.op, Op::SwapInput { .. });
+            let (a, b) = (&ctx.pre.vamms[v], &ctx.post.vamms[v]);
+            if !a.ok || w.resolve(&ctx.step.actor) != a.margin_engine {
+                return;
+            }
+            let d = a.decimals.max(1);
+            let amt = *quote;
+            let quoted = pq_u(ctx.preq, "quote");
+            let reference = if input { curve_input(*dir, amt, a.q, a.b, d) } else { curve_output(*dir, amt, a.q, a.b, d) };
+            // receiving: input+Add (gets base), output+Add (base into pool, gets quote)
+            let receiving = *dir == Dir::Add;
+            let kind = if input { "input" } else { "output" };
+            let rounded = {
+                let k = k_scaled(a.q, a.b, d) * u256(d);
+                let den = if input { if *dir == Dir::Add { a.q.saturating_add(amt) } else { a.q.saturating_sub(amt) } } else if *dir == Dir::Add { a.b.saturating_add(amt) } else { a.b.saturating_sub(amt) };
+                den != 0 && !(k % u256(den)).is_zero()
+            };
+            if let Some(qv) = quoted {
+                ev.eval(amt > 0, &("vamm", kind, *dir, rel(qv, *limit), rounded, ctx.out.ok), || {
+                    json!({"level": "vamm", "swap": kind, "direction": dir.js(), "amount": amt.to_string(), "quoted": qv.to_string(), "limit": limit.to_string(), "executed": ctx.out.ok})
+                });
+                if let Some(rv) = reference {
+                    if rv != qv {
+                        ev.violation("quote_ne_exec", &format!("vamm,{},{},query_vs_curve", kind, dir.js()), json!({"quoted": qv.to_string(), "reference": rv.to_string(), "amount": amt.to_string(), "q": a.q.to_string(), "b": a.b.to_string()}));
+                    }
+                }
+                if wrong_side(receiving, qv, *limit) {
+                    ev.count("limit_on_wrong_side");
+                    if ctx.out.ok {
+                        ev.violation("limit_ignored", &format!("vamm,{},{},{}", kind, dir.js(), rel(qv, *limit)), json!({"quoted": qv.to_string(), "limit": limit.to_string()}));
+                    }
+                }
+            }
+            if !ctx.out.ok {
+                if a.q != b.q || a.b != b.b || a.size != b.size {
+                    ev.violation("refusal_changed_state", &format!("vamm,{}", kind), json!({}));
+                }
+                return;
+            }
+            let (dq, db) = (a.q.abs_diff(b.q), a.b.abs_diff(b.b));
+            let (req_moved, counter) = if input { (dq, db) } else { (db, dq) };
+            if req_moved != amt {
+                ev.violation("requested_side_inexact", &format!("vamm,{},{}", kind, dir.js()), json!({"requested": amt.to_string(), "moved": req_moved.to_string()}));
+            }
+            if let Some(qv) = quoted {
+                if counter != qv {
+                    ev.violation("quote_ne_exec", &format!("vamm,{},{},exec_vs_query", kind, dir.js()), json!({"quoted": qv.to_string(), "executed": counter.to_string()}));
+                }
+            }
+            if *limit != 0 && wrong_side(receiving, counter, *limit) {
+                ev.violation("limit_ignored", &format!("vamm,{},{},executed", kind, dir.js()), json!({"executed": counter.to_string(), "limit": limit.to_string()}));
+            }
+        }
+        Op::Open { vamm, side, limit, .. } if w.cfg.kind == WorldKind::Standard => {
+            let v = *vamm;
+            let class = match classify_open(ctx, w) {
+                Some(c) => c,
+                None => return,
+            };
+            if !matches!(class.kind, OpenKind::Fresh | OpenKind::Increase | OpenKind::Reduce) {
+                return;
+            }
+            let qv = match pq_u(ctx.preq, "quote_in") {
+                Some(x) => x,
+                None => return,
+            };
+            let receiving = *side == Side::Buy;
+            ev.eval(class.n > 0, &("engine_open", class.kind, *side, rel(qv, *limit), ctx.out.ok), || {
+                json!({"level": "engine", "open": class.kind.s(), "side": side.js(), "notional": class.n.to_string(), "quoted_base": qv.to_string(), "limit": limit.to_string(), "executed": ctx.out.ok})
+            });
+            if wrong_side(receiving, qv, *limit) {
+                ev.count("limit_on_wrong_side");
+                if ctx.out.ok {
+                    ev.violation("limit_ignored", &format!("engine,{},{},{}", class.kind.s(), side.js(), rel(qv, *limit)), json!({"quoted": qv.to_string(), "limit": limit.to_string()}));
+                }
+            }
+            if ctx.out.ok {
+                let db = base_moved(ctx, v);
+                if db != qv {
+                    ev.violation("quote_ne_exec", &format!("engine,{},{}", class.kind.s(), side.js()), json!({"quoted": qv.to_string(), "executed": db.to_string()}));
+                }
+                if quote_moved(ctx, v) != class.n {
+                    ev.violation("requested_side_inexact", &format!("engine,{},{}", class.kind.s(), side.js()), json!({"requested": class.n.to_string(), "moved": quote_moved(ctx, v).to_string()}));
+                }
+            }
+        }
+        Op::Close { vamm, limit } if w.cfg.kind == WorldKind::Standard => {
+            let v = *vamm;
+            let actor = w.resolve(&ctx.step.actor);
+            let pos = match ctx.pre.position(v, &actor) {
+                Some(p) if p.size != 0 => p.clone(),
+                _ => return,
+            };
+            let qv = match pq_u(ctx.preq, "out_whole") {
+                Some(x) => x,
+                None => return,
+            };
+            // whole close only: the vAMM's net size moves by exactly the position's size
+            let moved = ctx.post.vamms[v].size - ctx.pre.vamms[v].size;
+            let whole = ctx.out.ok && moved == -pos.size;
+            let receiving = pos.size > 0;
+            ev.eval(true, &("engine_close", receiving, rel(qv, *limit), ctx.out.ok), || {
+                json!({"level": "engine", "close": if receiving { "long" } else { "short" }, "size": pos.size.to_string(), "quoted_quote": qv.to_string(), "limit": limit.to_string(), "executed": ctx.out.ok})
+            });
+            if whole {
+                if wrong_side(receiving, qv, *limit) {
+                    ev.violation("limit_ignored", &format!("engine,close,{},{}", if receiving { "long" } else { "short" }, rel(qv, *limit)), json!({"quoted": qv.to_string(), "limit": limit.to_string()}));
+                }
+                let dq = quote_moved(ctx, v);
+                if dq != qv {
+                    ev.violation("quote_ne_exec", &format!("engine,close,{}", if receiving { "long" } else { "short" }), json!({"quoted": qv.to_string(), "executed": dq.to_string()}));
+                }
+            }
+        }
+        _ => {}
+    }
+}
